@@ -26,7 +26,7 @@ theorem closedBytes_eq (c : Cfg) (stale : Nat) (ops : List WOp) :
     closedBytes (fmt c) stale ops = hdr c ++ opsData ops ∧ snapshotBytes (fmt c) stale ops = hdr c ++ opsData ops :=
   closedBytes_const (fmt c) (lawfulConst c) stale ops
 
-/-- the class of the known finding KF-PVF-SHORT-HEADER: the text header is shorter than the 12 bytes that
+/-- the class of the repaired defect KF-PVF-SHORT-HEADER: the text header is shorter than the 12 bytes that
     `guess_file_type` leaves in the header cache -/
 def KF.shortHeader (c : Cfg) : Prop := (hdr c).length < 12
 instance (c : Cfg) : Decidable (KF.shortHeader c) := by unfold KF.shortHeader; infer_instance
@@ -66,60 +66,99 @@ theorem pvf_short_header_class (c : Cfg) (hwf : c.wf) : KF.shortHeader c ↔ c.c
     have := q1.mpr h2; have := q2.mpr h3; have := q3.mpr (hb.mpr h1)
     omega
 
-/-- what C04 asks of PVF -/
-def pvf_reopen_full : Prop :=
-  ∀ (c : Cfg), c.wf → ∀ (stale : Nat) (ops : List WOp),
-    parse (closedBytes (fmt c) stale ops) =
+/-- what C04 asks of PVF, of a reader `p` and of files of at least `lo` bytes -/
+def reopenFull (p : List Byte → ParseRes) (lo : Nat) : Prop :=
+  ∀ (c : Cfg), c.wf → ∀ (stale : Nat) (ops : List WOp), lo ≤ (hdr c).length + (opsData ops).length →
+    p (closedBytes (fmt c) stale ops) =
       .ok { ch := c.ch, fmt := 0x0E0000 + c.codec, sr := c.sr, frames := (opsData ops).length / (bytewidth c.codec * c.ch) }
 
-/-- **pvf_reopen_info** (`…_partial`: everything outside the class KF.shortHeader).  For every accepted
-    configuration and every session the closed file re-opens with the requested channels, PVF / the requested PCM
-    width, exactly the requested rate, and frames = audio bytes / block width. -/
-theorem pvf_reopen_info (c : Cfg) (hwf : c.wf) (stale : Nat) (ops : List WOp) (hk : ¬ KF.shortHeader c) :
+/-- the full statement: every closed file -/
+def pvf_reopen_full : Prop := reopenFull parse 0
+
+/-- the class of the known finding KF-PVF-TINY-FILE: the whole file is shorter than the 12 bytes the type detection
+    reads (an 11-byte header and no audio) -/
+def KF.tinyFile (c : Cfg) (ops : List WOp) : Prop := (hdr c).length + (opsData ops).length < 12
+instance (c : Cfg) (ops : List WOp) : Decidable (KF.tinyFile c ops) := by unfold KF.tinyFile; infer_instance
+
+/-- **pvf_reopen_info** (`…_partial`: everything outside the class KF.tinyFile; the class KF.shortHeader is no longer
+    excluded since the repair of KF-PVF-SHORT-HEADER).  For every accepted configuration — also the 11-byte headers —
+    and every session that leaves at least 12 bytes, the closed file re-opens with the requested channels, PVF / the
+    requested PCM width, exactly the requested rate, and frames = audio bytes / block width. -/
+theorem pvf_reopen_info (c : Cfg) (hwf : c.wf) (stale : Nat) (ops : List WOp) (hk : ¬ KF.tinyFile c ops) :
     parse (closedBytes (fmt c) stale ops) =
       .ok { ch := c.ch, fmt := 0x0E0000 + c.codec, sr := quant c.sr, frames := (opsData ops).length / (bytewidth c.codec * c.ch) } := by
-  unfold KF.shortHeader at hk
-  rw [(closedBytes_eq c stale ops).1, parse_image c hwf _ (by simp; omega)]
-  have : max 12 (hdr c).length = (hdr c).length := Nat.max_eq_right (by omega)
+  unfold KF.tinyFile at hk
+  rw [(closedBytes_eq c stale ops).1]
+  show parseWith true _ = _
+  rw [parseWith_image true c hwf _ (by simp; omega)]
+  have : offOf true c = (hdr c).length := rfl
   rw [this, Nat.add_sub_cancel_left]; rfl
 
-/-- inside the class, with at least one byte of audio: the reader starts the audio one byte late (data offset 12
-    instead of 11), so it reports (audio bytes − 1) / block width frames and shifted samples -/
-theorem pvf_short_header_shift (c : Cfg) (hwf : c.wf) (stale : Nat) (ops : List WOp) (hk : KF.shortHeader c)
+theorem pvf_reopen_partial : reopenFull parse 12 := fun c hwf stale ops h =>
+  pvf_reopen_info c hwf stale ops (by unfold KF.tinyFile; omega)
+
+/-- **pvf_short_header_old_rule.**  Before the repair (`psf->dataoffset = psf_ftell (psf)`), inside the class
+    KF.shortHeader and with at least one byte of audio, the reader started the audio one byte late (data offset 12
+    instead of 11): it reported (audio bytes − 1) / block width frames and shifted samples -/
+theorem pvf_short_header_old_rule (c : Cfg) (hwf : c.wf) (stale : Nat) (ops : List WOp) (hk : KF.shortHeader c)
     (h1 : 12 ≤ (hdr c).length + (opsData ops).length) :
-    parse (closedBytes (fmt c) stale ops) =
+    parseOld (closedBytes (fmt c) stale ops) =
       .ok { ch := c.ch, fmt := 0x0E0000 + c.codec, sr := c.sr,
             frames := ((hdr c).length + (opsData ops).length - 12) / (bytewidth c.codec * c.ch) } := by
   unfold KF.shortHeader at hk
-  rw [(closedBytes_eq c stale ops).1, parse_image c hwf _ (by simp; omega)]
-  have : max 12 (hdr c).length = 12 := Nat.max_eq_left (by omega)
+  rw [(closedBytes_eq c stale ops).1]
+  show parseWith false _ = _
+  rw [parseWith_image false c hwf _ (by simp; omega)]
+  have : offOf false c = 12 := by unfold offOf; exact Nat.max_eq_left (by omega)
   rw [this]
 
-/-- the class of KF-PVF-TINY-FILE: the whole file is shorter than the 12 bytes the type detection reads -/
-theorem pvf_tiny_not_reopened (c : Cfg) (stale : Nat) (ops : List WOp) (h : (hdr c).length + (opsData ops).length < 12) :
-    parse (closedBytes (fmt c) stale ops) = .err := by
+/-- … and outside that class the old reader did what the current one does -/
+theorem pvf_reopen_info_old_rule (c : Cfg) (hwf : c.wf) (stale : Nat) (ops : List WOp) (hk : ¬ KF.shortHeader c) :
+    parseOld (closedBytes (fmt c) stale ops) =
+      .ok { ch := c.ch, fmt := 0x0E0000 + c.codec, sr := c.sr, frames := (opsData ops).length / (bytewidth c.codec * c.ch) } := by
+  unfold KF.shortHeader at hk
   rw [(closedBytes_eq c stale ops).1]
-  unfold parse
+  show parseWith false _ = _
+  rw [parseWith_image false c hwf _ (by simp; omega)]
+  have : offOf false c = (hdr c).length := by unfold offOf; exact Nat.max_eq_right (by omega)
+  rw [this, Nat.add_sub_cancel_left]
+
+/-- the class of KF-PVF-TINY-FILE: the whole file is shorter than the 12 bytes the type detection reads -/
+theorem pvf_tiny_not_reopened (c : Cfg) (stale : Nat) (ops : List WOp) (h : KF.tinyFile c ops) :
+    parse (closedBytes (fmt c) stale ops) = .err := by
+  unfold KF.tinyFile at h
+  rw [(closedBytes_eq c stale ops).1]
+  unfold parse parseWith
   rw [if_pos (by simp; omega)]
 
 /-- two channels of 8-bit samples at 1 Hz, three frames (findings/kf_pvf_short_header.txt) -/
 def shortCfg : Cfg := ⟨1, 2, 1⟩
 def shortOps : List WOp := [.write [1, 2, 3, 4, 5, 6] false]
 
+/-- the witness of the repaired KF-PVF-SHORT-HEADER re-opens with its three frames; the old reader found two; the
+    11-byte file without audio (KF-PVF-TINY-FILE, findings/kf_pvf_tiny_file.txt) still cannot be re-opened -/
 theorem pvf_short_witness : shortCfg.wf ∧ KF.shortHeader shortCfg ∧
-    parse (closedBytes (fmt shortCfg) 0 shortOps) = .ok ⟨2, 0x0E0001, 1, 2⟩ ∧
-    parse (closedBytes (fmt shortCfg) 7 []) = .err := by decide +kernel
+    parse (closedBytes (fmt shortCfg) 0 shortOps) = .ok ⟨2, 0x0E0001, 1, 3⟩ ∧
+    parseOld (closedBytes (fmt shortCfg) 0 shortOps) = .ok ⟨2, 0x0E0001, 1, 2⟩ ∧
+    KF.tinyFile shortCfg [] ∧ parse (closedBytes (fmt shortCfg) 7 []) = .err := by decide +kernel
 
-/-- the full statement fails: the three frames re-open as two -/
+/-- the full statement failed for the old reader on files of at least 12 bytes: the three frames re-opened as two -/
+theorem pvf_reopen_old_rule_fails : ¬ reopenFull parseOld 12 := by
+  intro h
+  have h1 := h shortCfg pvf_short_witness.1 0 shortOps (by decide +kernel)
+  rw [pvf_short_witness.2.2.2.1] at h1
+  revert h1; decide
+
+/-- the full statement still fails, for the 11-byte file only (KF-PVF-TINY-FILE) -/
 theorem pvf_reopen_full_fails : ¬ pvf_reopen_full := by
   intro h
-  have h1 := h shortCfg pvf_short_witness.1 0 shortOps
-  rw [pvf_short_witness.2.2.1] at h1
+  have h1 := h shortCfg pvf_short_witness.1 7 [] (by decide)
+  rw [pvf_short_witness.2.2.2.2.2] at h1
   revert h1; decide
 
 def exCfg : Cfg := ⟨2, 2, 44100⟩
 def exOps : List WOp := [.write [0, 1, 0, 2] false, .update, .write [0, 3, 0, 4, 0, 5, 0, 6] true]
-example : exCfg.wf ∧ ¬ KF.shortHeader exCfg ∧ (closedBytes (fmt exCfg) 77 exOps).length = 28 ∧
+example : exCfg.wf ∧ ¬ KF.tinyFile exCfg exOps ∧ (closedBytes (fmt exCfg) 77 exOps).length = 28 ∧
     parse (closedBytes (fmt exCfg) 77 exOps) = .ok ⟨2, 0x0E0002, 44100, 3⟩ := by decide +kernel
 
 /-- **pvf_size_fields.**  PVF has no size field: the closed file is exactly the text header followed by the audio
@@ -149,9 +188,9 @@ theorem stale_frames_ignored_pvf (c : Cfg) (a b : Nat) (ops : List WOp) :
 example : closedBytes (fmt exCfg) 0 exOps = closedBytes (fmt exCfg) 123456 exOps := by decide +kernel
 
 /-- **pvf_snapshot_valid.**  After any session prefix, the image a header update leaves in the store is the file
-    a close at that instant would produce; outside KF.shortHeader it parses with the same parameters and exactly
+    a close at that instant would produce; outside KF.tinyFile it parses with the same parameters and exactly
     the frames written so far. -/
-theorem pvf_snapshot_valid (c : Cfg) (hwf : c.wf) (stale : Nat) (ops : List WOp) (hk : ¬ KF.shortHeader c) :
+theorem pvf_snapshot_valid (c : Cfg) (hwf : c.wf) (stale : Nat) (ops : List WOp) (hk : ¬ KF.tinyFile c ops) :
     parse (snapshotBytes (fmt c) stale ops) =
       .ok { ch := c.ch, fmt := 0x0E0000 + c.codec, sr := quant c.sr, frames := (opsData ops).length / (bytewidth c.codec * c.ch) } ∧
     snapshotBytes (fmt c) stale ops = hdr c ++ opsData ops := by
